@@ -93,7 +93,7 @@ class Interp(ExprMixin, StmtMixin, CallMixin, BuiltinMixin, HeapMixin, SpecMixin
         if isinstance(f, bool):
             return self.assume(f)
         for c in self.conjuncts(f):
-            if z3.is_quantifier(c) and c.is_forall() and c.num_vars() == 1:
+            if z3.is_quantifier(c) and c.is_forall() and c.num_vars() == 1 and not c.var_name(0).startswith('qpos'):
                 self.deferred.append(c)
                 for idx in list(self.touched_idx):
                     self.instantiate_one(c, idx)
@@ -140,12 +140,12 @@ class Interp(ExprMixin, StmtMixin, CallMixin, BuiltinMixin, HeapMixin, SpecMixin
             return False
         return self.check(c) != z3.unsat
 
-    def choose(self, conds, label='', names=None):
+    def choose(self, conds, label='', names=None, exclusive=True):
         """Multi-way decision.  conds: list of (z3 Bool | bool).  Returns the
         chosen index; the chosen condition is added to the path condition."""
         conds = [simp_bool(c) for c in conds]
         trues = [i for i, c in enumerate(conds) if c is True]
-        if trues:
+        if trues and exclusive:
             return trues[0]
         if self.spec_mode:
             raise Unsupported('decision inside a specification expression (%s)' % label)
@@ -161,6 +161,9 @@ class Interp(ExprMixin, StmtMixin, CallMixin, BuiltinMixin, HeapMixin, SpecMixin
             return i
         feas = []
         for n, i in enumerate(cand):
+            if not exclusive and conds[i] is True:
+                feas.append(i)          # nondeterministic alternative that is always enabled
+                continue
             if n == len(cand) - 1 and not feas:
                 # last candidate and nothing else feasible: it must be
                 # (the alternatives are exhaustive by construction)
